@@ -96,6 +96,18 @@ class C07(fw.Prop):
         for k in ["getRespNormal", "getRespBlock", "getRespLastBlock", "setResp", "actResp", "actRespErr", "exceptionResp", "dataNotif",
                   "rlre", "confirmedServiceErr"]:
             out.append(("wrong-kind", p.resp(k) + ["wrong-kind"]))
+        # variants: an exception-response carrying an invocation counter (small / 2^32-1), AAREs announcing a tiny maximum PDU
+        # size or mechanism HLS with challenges of boundary lengths - wherever they are refused, nothing may have moved
+        for k in ("exceptionRespIc", "exceptionRespIcBig"):
+            out.append(("wrong-kind", p.resp(k) + ["wrong-kind"]))
+        for size in (0, 5, 11):
+            p.maxpdu = size
+            out.append(("wrong-kind", p.resp("aare", (0, 5 if p.name == "hls" else None)) + ["wrong-kind"]))
+        p.maxpdu = 500
+        for n in (7, 64, 65):
+            p.mch = "ab" * n
+            out.append(("wrong-kind", p.resp("aare", (0, 5)) + ["wrong-kind"]))
+        p.mch = "c1c2c3c4c5c6c7c8"
         out.append(("wrong-kind", p.resp("aare", (0, None)) + ["wrong-kind"]))
         out.append(("wrong-kind", p.resp("aare", (1, 5)) + ["wrong-kind"]))
         if p.ciphered:
@@ -115,6 +127,8 @@ class C07(fw.Prop):
             ct = f"seal:{EK[0]}:{EK[1]}:{MT}:{fresh + 5}:{sc}:{AK[0]}:{AK[1]}:s.getRespNormal"
             out.append(("wrong-counter", ["recv", ["ggc", MT, str(sc), str(fresh + 6), ct], None, "wrong-counter"]))
             out.append(("short", ["recv", ["ggc", MT, str(sc), str(fresh + 7), "short"], None, "short"]))
+            for mal in ("mal6", "mal7", "mal8", "mal9", "mal10", "mal11", "mal12", "mal13", "mal14"):
+                out.append(("odd-proof", p.resp("actRespData", mal) + ["odd-proof"]))
             out.append(("undecodable-plaintext", ["recv", ["ggc", MT, str(sc), str(fresh + 8),
                                                            f"seal:{EK[0]}:{EK[1]}:{MT}:{fresh + 8}:{sc}:{AK[0]}:{AK[1]}:undec"], None, "undec"]))
             # AARE with a bad ciphered initiate response / an old counter
